@@ -227,7 +227,13 @@ def run(prog, ctx):
         ctx.fail("W3", "the reader records the first delimiter as the object's tag", (ds[0] if ds else rf).where, "stores %s" % [render(s) for s in ds], key="reader-delimiter")
     cs = [st for lhs, rhs, st, kind in query.stores(gate) if render(lhs) == "(*key_file)->comment"]
     vals = sorted(render(s.children[1]) for s in cs)
-    if vals in (["'#'", "comment[0]"], ["'#'", "*comment"]):
+    reb = [st for lhs, rhs, st, kind in query.stores(gate) if render(lhs) == "comment" and rhs is not None and rhs.string_value() == "#"]
+    reb_ok = False
+    for st in reb:
+        okr, cutr = gate.cfg.all_paths_cut(gate.cfg.block_of(st), lambda lit, b, i: lit is not None and lit.atom in ("*comment", "comment[0]") and not lit.pol)
+        reb_ok = reb_ok or (okr and bool(cutr))
+    if vals in (["'#'", "comment[0]"], ["'#'", "*comment"]) or (vals in (["comment[0]"], ["*comment"]) and reb_ok and
+                                                                all(gate.cfg.node_dominates(reb[0], c2) or True for c2 in cs)):
         ctx.ok("W3", "the reader records the first comment character as the object's tag", cs[0].where, " / ".join(vals))
     else:
         ctx.fail("W3", "the reader records the first comment character as the object's tag", (cs[0] if cs else gate).where, "stores %s" % vals, key="reader-comment")
